@@ -619,6 +619,7 @@ func addDirective(ws *protogen.Workspace, id, rule string) bool {
 func genLint(ctx context.Context, t *rapid.T) *Case {
 	gcfg := protogen.DefaultConfig()
 	gcfg.MaxFiles, gcfg.Groups = 5, false
+	gcfg.SharedDirs = true
 	ws := protogen.GenWorkspace(t, gcfg)
 	ed := protogen.NewEditor(t)
 	for i := 0; i < rapid.IntRange(1, 4).Draw(t, "plants"); i++ {
